@@ -307,6 +307,8 @@ def program_after(hist):
     return P
 
 
+EVENTS_CORE = ["redef_f", "redef_g", "redef_h", "redef_r", "redef_q", "rebind_G", "rebind_HV", "mutate_GL", "def_k_helper", "def_k_var", "def_abs_helper", "rebind_t",
+               "toggle_g_kind", "rebind_cfg", "def_attr_Z", "clone_f", "clone_f_quiet", "wrap_f", "query_f", "rebind_e", "rebind_double", "def_tr_explicit"]
 WARM_EVENTS = ["rebind_G", "mutate_GL", "redef_h", "clone_f_quiet", "clone_f", "wrap_f", "rebind_cfg", "rebind_t", "rebind_e", "rebind_double", "rebind_triple",
                "def_tr_explicit", "def_k_none", "def_attr_AltZ"]
 
@@ -319,7 +321,8 @@ def expand(cfg, hist):
         return out
     hist = prefix + tuple(hist)
     P = program_after(hist)
-    evs = [e for e in (EVENTS if not prefix else WARM_EVENTS) if enabled(P, e)]
+    alphabet = EVENTS_CORE if len(cfg) > 3 and cfg[3] == "core" else (EVENTS if not prefix else WARM_EVENTS)
+    evs = [e for e in alphabet if enabled(P, e)]
     if seed:
         import random
 
@@ -464,15 +467,21 @@ def run(ctx):
     ctx.rule = ("BFS to depth %d over in-process events %s on a live module (f -> g memento, f -> h plain, f -> k late symbol, "
                 "globals G / GL, dotted cfg.X, self-recursive r, mutually recursive p <-> q); after every transition all versions (f, g, clones and unregistered wrappers "
                 "of the current code of f) are compared with a fresh process importing the resulting program text; one "
-                "history per canonical (program text, version-cache state, hash-rule state); distinct = canonical states."
-                % (depth, EVENTS))
+                "history per canonical (program text, version-cache state, hash-rule state); distinct = canonical states.%s"
+                % (3, EVENTS, " Thorough: also to depth 4 over the core events %s." % EVENTS_CORE if thorough else ""))
     ctx.assumptions += ["clones / wrappers created before f is redefined hold the old code object and are not queried afterwards",
                         "no cluster is locked"]
     a = expand((1, 0), ())
     b = expand((1, 0), ())
     ctx.selfcheck("first level expands identically twice", [x[:2] for x in a] == [x[:2] for x in b])
-    cfg = (depth, ctx.seed)
-    r = vbfs.explore(expand, cfg, vbfs.digest("init"), max_depth=depth, label="c13")
+    # quick: depth 3 over all events. thorough: depth 3 over all events and depth 4 over the core events (depth 4 over all
+    # 36 events is some 350 000 live processes plus a fresh interpreter per distinct program text)
+    cfg = (3, ctx.seed)
+    r = vbfs.explore(expand, cfg, vbfs.digest("init"), max_depth=3, label="c13")
+    if thorough:
+        r["caps"] = [c for c in r["caps"] if "depth cap" not in c]
+        ctx.merge([r])
+        r = vbfs.explore(expand, (4, ctx.seed, (), "core"), vbfs.digest("init-core"), max_depth=4, label="c13-core")
     r["caps"] = [c for c in r["caps"] if "depth cap" not in c]
     ctx.merge([r])
     # the same search started from a module whose versions have all been asked for once (every function has rules to go stale)
